@@ -363,6 +363,13 @@ func (flogs *fileLogs) getWriteLog(topic string) (fl *fileLog, err error) {
 	fl, found = flogs.files[topic]
 	flogs.RUnlock()
 	if !found {
+		// Create under the write lock and re-check, so concurrent first appends to a topic share one
+		// file handle (and its mutex) instead of interleaving their header and payload writes.
+		flogs.Lock()
+		defer flogs.Unlock()
+		if fl, found = flogs.files[topic]; found {
+			return
+		}
 		filename := filepath.Join(flogs.path, topic)
 		var f *os.File
 		f, err = os.OpenFile(filename, os.O_WRONLY|os.O_CREATE|os.O_APPEND|os.O_SYNC, 0755)
@@ -370,9 +377,7 @@ func (flogs *fileLogs) getWriteLog(topic string) (fl *fileLog, err error) {
 			return
 		}
 		fl = &fileLog{File: f}
-		flogs.Lock()
 		flogs.files[topic] = fl
-		flogs.Unlock()
 	}
 	return
 }
